@@ -186,8 +186,8 @@ def _split_cases(terms, hyps, limit=64):
             if len(out) > limit:
                 raise RuntimeError("case explosion")
             continue
-        # pick an outermost condition: one that does not sit inside another ite's condition
-        c = cs[-1]
+        # innermost condition first (post-order): deciding it simplifies the conditions that contain it
+        c = cs[0]
         for val in (True, False):
             lit = c if val else tm.not_(c)
             if not backends.feasible(hyps + case + [lit]):
@@ -215,7 +215,7 @@ def _assume(ts, c, val):
 
 def prove_eq(lhs, rhs, hyps, opts):
     """-> (status, backend, detail).  lhs, rhs real terms."""
-    from . import backends, ring
+    from . import backends, ring, tower
     from . import terms as tm
 
     backend = opts.get("backend", "auto")
@@ -235,10 +235,22 @@ def prove_eq(lhs, rhs, hyps, opts):
             for case, (g,) in cases:
                 if g.op == "c" and g.args[0] == 0:
                     continue
-                st, info = ring.is_zero(g, budget_s=opts.get("ring_budget", 120.0))
+                st, info = tower.is_zero(g, budget_s=opts.get("ring_budget", 60.0))
+                if st == "gaveup":
+                    st, info = ring.is_zero(g, budget_s=opts.get("ring_budget", 60.0))
                 if st != "zero":
                     allz = False
+                    info.pop("side_conditions", None)
                     details.append("ring %s %s" % (st, info))
+                    break
+                for sc in info.get("side_conditions", []):
+                    # cos/sin(atan2(y,x)) = x/r, y/r needs r != 0
+                    v = backends.prove(hyps + case, tm.not_(tm.eq(sc, tm.ZERO)), rlimit=opts.get("rlimit", backends.RLIMIT), use_cvc5=False)
+                    if v.status != "proved":
+                        allz = False
+                        details.append("ring side condition (atan2 argument non-zero) not proved: %s" % tm.short(sc, 80))
+                        break
+                if not allz:
                     break
             if allz:
                 return "proved", "ring", "%d case(s)" % len(cases)
@@ -340,18 +352,7 @@ def _discharge(oname, kind, l, r, hyps, pts, opts, spec):
     t0 = time.time()
     tol = opts.get("num_tol", 1e-7)
     clause = opts.get("clause") or (("%s == %s" % (tm.short(l, 70), tm.short(r, 70))) if kind == "eq" else tm.short(l, 140))
-    # 1. definedness of the claim terms (sqrt/div/acos/log domains), guard-aware
-    roots = [l] + ([r] if r is not None else [])
-    dfn = tm.definedness(roots)
-    if dfn is not tm.TRUE and not opts.get("skip_def"):
-        v = backends.prove(hyps, dfn, rlimit=opts.get("rlimit", backends.RLIMIT))
-        if v.status == "refuted":
-            return mk_result(oname, clause, "P", "refuted", "z3", time.time() - t0,
-                             "definedness: a sqrt/division/acos argument leaves its domain", witness=v.model)
-        if v.status != "proved":
-            # try numeric evidence of a domain violation, else undecided
-            return mk_result(oname, clause, "P", "undecided", "z3", time.time() - t0, "definedness undecided: " + v.detail)
-    # 2. numeric pre-filter on points satisfying the hypotheses (fast refutation with a witness)
+    # 0. numeric pre-filter on points satisfying the hypotheses (fast refutation with a witness)
     for env in pts:
         try:
             if kind == "eq":
@@ -366,19 +367,47 @@ def _discharge(oname, kind, l, r, hyps, pts, opts, spec):
             return mk_result(oname, clause, "P", "refuted", "numeric", time.time() - t0,
                              "claim fails at a sampled point satisfying the precondition: %s" % ((x, y) if kind == "eq" else x,),
                              witness=env)
-    # 3. proof
-    if kind == "eq":
-        st, be, det = prove_eq(l, r, hyps, opts)
-        if st == "proved" and not opts.get("no_control"):
-            # negative control: the same goal shifted by a non-zero atom must NOT be provable
-            ats = [a for a in tm.atoms([l, r]) if a.op == "v"]
-            if ats:
-                st2, be2, _ = prove_eq(tm.add(l, ats[0]), r, hyps + [tm.not_(tm.eq(ats[0], tm.ZERO))], dict(opts, ring_budget=20, rlimit=2000000))
-                if st2 == "proved":
-                    return mk_result(oname, clause, "P", "error", be, time.time() - t0, "negative control was proved: back end unsound")
-        return mk_result(oname, clause, "P", st, be, time.time() - t0, det)
-    v = backends.prove(hyps, l, rlimit=opts.get("rlimit", backends.RLIMIT))
-    return mk_result(oname, clause, "P", v.status, v.backend, time.time() - t0, v.detail, witness=v.model)
+    # 1. case split on the ite (tf.where) conditions, pruned by the hypotheses
+    roots = [l] + ([r] if r is not None else [])
+    try:
+        cases = _split_cases(roots, hyps)
+    except RuntimeError as ex:
+        return mk_result(oname, clause, "P", "undecided", "-", time.time() - t0, str(ex))
+    backends_used = []
+    for case, terms in cases:
+        hy = hyps + case
+        # 2. definedness of the claim terms (sqrt/div/acos/log domains), guard-aware
+        dfn = tm.definedness(terms)
+        if dfn is not tm.TRUE and not opts.get("skip_def"):
+            v = backends.prove(hy, dfn, rlimit=opts.get("rlimit", backends.RLIMIT))
+            if v.status == "refuted":
+                return mk_result(oname, clause, "P", "refuted", "z3", time.time() - t0,
+                                 "definedness: a sqrt/division/acos argument leaves its domain", witness=v.model)
+            if v.status != "proved":
+                return mk_result(oname, clause, "P", "undecided", "z3", time.time() - t0, "definedness undecided: " + v.detail)
+            backends_used.append(v.backend)
+        # 3. proof
+        if kind == "eq":
+            st, be, det = prove_eq(terms[0], terms[1], hy, opts)
+            if st == "proved" and not opts.get("no_control"):
+                # negative control: the same goal shifted by a non-zero atom must NOT be provable
+                ats = [a for a in tm.atoms(terms) if a.op == "v"]
+                if ats:
+                    st2, be2, _ = prove_eq(tm.add(terms[0], ats[0]), terms[1], hy + [tm.not_(tm.eq(ats[0], tm.ZERO))],
+                                           dict(opts, ring_budget=20, rlimit=1000000, backend="ring" if be == "ring" else "z3"))
+                    if st2 == "proved":
+                        return mk_result(oname, clause, "P", "error", be, time.time() - t0, "negative control was proved: back end unsound")
+            if st != "proved":
+                return mk_result(oname, clause, "P", st, be, time.time() - t0, det)
+            backends_used.append(be)
+        else:
+            v = backends.prove(hy, terms[0], rlimit=opts.get("rlimit", backends.RLIMIT))
+            if v.status != "proved":
+                return mk_result(oname, clause, "P", v.status, v.backend, time.time() - t0, v.detail, witness=v.model)
+            backends_used.append(v.backend)
+    main = [b for b in backends_used if b not in ("syntactic",)] or ["syntactic"]
+    be = "ring" if "ring" in main else main[-1]
+    return mk_result(oname, clause, "P", "proved", be, time.time() - t0, "%d case(s); back ends %s" % (len(cases), sorted(set(backends_used))))
 
 
 # ---------------------------------------------------------------------------------------------
